@@ -44,6 +44,9 @@ func runC16(c *Ctx) {
 	c.Rule("R16d", "the CLI sets a schema qualifier only under `<client>.URL.Schema != \"\"` (planOptions, fmtPlan, migrateDiffRun)", 3)
 	c.Rule("R16e", "mysql/postgres planners never write a table, view or schema name through the raw Builder.Ident (only through Table/View/SchemaResource/TableResource/mayQualify); positive control: the same matcher finds sqlite's unqualified table idents", 2)
 
+	c.Rule("R16g", ruleTextPlanOpts, 2)
+	checkPlanOptsForwarded(c, "R16g")
+
 	prog := c.SSA()
 	cg := c.CHA()
 	var roots []*ssa.Function
